@@ -162,7 +162,9 @@ mod cli {
     }
     include!(concat!(env!("CARGO_MANIFEST_DIR"), "/../repo-link/src/main.rs"));
 
-    pub fn run<S: State>(out: std::path::PathBuf, replicas: u64, state: S, opt: &BuildOptimiser) -> Result<(), Error> {
+    // (the bounds are those every state type of the crate satisfies: a pipeline that starts to
+    // read states back, or to send them between threads, still builds here)
+    pub fn run<S: State + serde::de::DeserializeOwned + serde::Serialize + Send + Sync + 'static>(out: std::path::PathBuf, replicas: u64, state: S, opt: &BuildOptimiser) -> Result<(), Error> {
         analyse_state(out, replicas, state, opt)
     }
 }
